@@ -38,6 +38,9 @@ STMT_HOSTS = [
     ("deep_if", "if a:\n    if b:\n        if c:\n            if d:\n                X\n"),
 ]
 EXPR_HOSTS = [
+    ("dead_return_value", "def g():\n    return 1\n    return X\n"),
+    ("dead_assign_value", "for i in r:\n    continue\n    x = X\n"),
+    ("dead_if_test", "def g():\n    return 1\n    if X:\n        pass\n"),
     ("call_arg", "f(X)\n"),
     ("lambda_body", "g = lambda: X\n"),
     ("comp_elt", "l = [X for i in r]\n"),
@@ -147,6 +150,15 @@ ILLEGAL = [
     ("assign_to_call", "f() = 1\n") if False else ("await_outside", "await x\n"),
     ("yield_outside", "yield 1\n"),
     ("yield_in_class", "class A:\n    yield 1\n"),
+    # illegal placements in DEAD position (after an interrupt of the same block): still illegal
+    ("dead_break_in_def", "def f():\n    return 1\n    break\n"),
+    ("dead_continue_in_def_in_loop", "for i in r:\n    def f():\n        return i\n        continue\n"),
+    ("dead_return_module_loop", "for i in r:\n    break\n    return 5\n"),
+    ("dead_return_module_while_else", "while c:\n    if d:\n        pass\n    else:\n        continue\n        return\n"),
+    ("dead_break_in_class", "class A:\n    for i in r:\n        pass\n    def m(self):\n        return 1\n        break\n"),
+    ("dead_continue_after_break_in_def", "def f():\n    if c:\n        return 2\n        continue\n"),
+    ("dead_two_stars", "def f():\n    return 1\n    a, *b, *c = x\n"),
+    ("dead_return_in_class_in_loop", "for i in r:\n    class A:\n        pass\n    continue\n    return 3\n"),
     ("starred_expr_stmt", "*a\n"),
     ("starred_assign_value", "x = *a\n"),
 ]
@@ -186,16 +198,13 @@ CONFIGS = [("ast.unparse", "chain_call", "if_expr"), ("oneliner", "list", "short
 
 def converts(src, cfgi):
     """True iff the real converter returns (instead of raising) for this source"""
-    from oneliner.config import Configs
-    import oneliner
-
-    c = Configs()
+    c = _Configs()
     c.unparser, c.expr_wrapper, c.if_style = CONFIGS[cfgi]
     random.seed(0)
     try:
         with warnings.catch_warnings():
             warnings.simplefilter("ignore")
-            oneliner.convert_code_string(src, configs=c)
+            _oneliner.convert_code_string(src, configs=c)
     except RecursionError:
         raise
     except Exception:
@@ -288,7 +297,7 @@ def k_legal(i, cfgi):
 def unsupported_catalogue_complete():
     """fail closed: every ast.stmt subclass is either handled by the converter's dispatch table or
     represented among the constructs"""
-    from oneliner.convert import ast2pending
+    from oneliner.convert import ast2pending  # (called from the driver, after import_repo())
 
     handled = {t.__name__ for t in ast2pending}
     covered = {"Try", "TryStar", "Raise", "With", "Assert", "Delete", "AsyncFunctionDef", "AsyncFor", "AsyncWith", "Match", "TypeAlias", "ImportFrom", "Expr"}
@@ -301,5 +310,15 @@ def unsupported_catalogue_complete():
     return unknown
 
 
+# The package of the tree under test is imported NOW (module import time): CrossHair restores
+# sys.path before it analyses the conditions, a lazy import inside a kernel would silently resolve
+# to the installed copy (/repo) instead of the tree under test.
 if rt.REPO not in sys.path[:1]:
     sys.path.insert(0, rt.REPO)
+for _m in [m for m in sys.modules if m == "oneliner" or m.startswith("oneliner.")]:
+    del sys.modules[_m]
+import oneliner as _oneliner  # noqa: E402
+from oneliner.config import Configs as _Configs  # noqa: E402
+
+if not __import__("os").path.realpath(_oneliner.__file__).startswith(__import__("os").path.realpath(rt.REPO) + "/"):
+    raise ImportError("oneliner imported from %s, not from the tree under test %s" % (_oneliner.__file__, rt.REPO))
